@@ -6,6 +6,8 @@ pub mod c19;
 pub mod c07;
 pub mod c10;
 pub mod c12;
+pub mod c14;
+pub mod c15;
 use crate::Ctx;
 pub fn run(prop: &str, ctx: &mut Ctx) -> bool {
     match prop {
@@ -16,6 +18,8 @@ pub fn run(prop: &str, ctx: &mut Ctx) -> bool {
         "C10" => c10::run(ctx),
         "C12" => c12::run(ctx),
         "C01" | "C02" | "C03" | "C04" => { let n = ctx.budget(72, 12); qrig::standard_histories(ctx, &prop.to_lowercase(), n) }
+        "C14" => c14::run(ctx),
+        "C15" => c15::run(ctx),
         _ => return false,
     }
     true
